@@ -31,7 +31,7 @@ func MapDouble(lexicalForm string) (Double, error) {
 func (v Double) AsObjectValue() rdf.ObjectValue {
 	return rdf.Literal{
 		Datatype:    xsdiri.Double_Datatype,
-		LexicalForm: strconv.FormatFloat(float64(v), 'f', -1, 64),
+		LexicalForm: formatFloatLexicalForm(float64(v), 64),
 	}
 }
 
@@ -47,5 +47,5 @@ func (v Double) TermEquals(t rdf.Term) bool {
 		return false
 	}
 
-	return strconv.FormatFloat(float64(v), 'f', -1, 64) == tLiteral.LexicalForm
+	return formatFloatLexicalForm(float64(v), 64) == tLiteral.LexicalForm
 }
